@@ -825,6 +825,217 @@ func runExplicit(k *vf.Case) {
 	}
 }
 
+// runObservable: an observable counter under a histogram aggregation. Every collection of a reader runs the
+// callback once, so the reader's histogram receives one more observation per collection; the kind is
+// monotonic, so the sum is collected and must be exact like everything else.
+func runObservable(k *vf.Case) {
+	r := k.R
+	bounds := genBounds(r)
+	expo := r.Chance(1, 3)
+	var agg sdkmetric.Aggregation = sdkmetric.AggregationExplicitBucketHistogram{Boundaries: bounds}
+	if expo {
+		agg = sdkmetric.AggregationBase2ExponentialHistogram{MaxSize: 160, MaxScale: 20}
+	}
+	sel := func(sdkmetric.InstrumentKind) sdkmetric.Aggregation { return agg }
+	cum := sdkmetric.NewManualReader(sdkmetric.WithAggregationSelector(sel))
+	mp := sdkmetric.NewMeterProvider(sdkmetric.WithReader(cum))
+	m := mp.Meter("c07o")
+	ctx := context.Background()
+	var cur int64
+	intInst := r.Bool()
+	if intInst {
+		m.Int64ObservableCounter("h", metric.WithInt64Callback(func(_ context.Context, o metric.Int64Observer) error { o.Observe(cur); return nil }))
+	} else {
+		m.Float64ObservableCounter("h", metric.WithFloat64Callback(func(_ context.Context, o metric.Float64Observer) error { o.Observe(float64(cur)); return nil }))
+	}
+	var rm metricdata.ResourceMetrics
+	var n uint64
+	var sum int64
+	mn, mx := int64(math.MaxInt64), int64(math.MinInt64)
+	for i := 1 + r.Intn(30); i > 0; i-- {
+		cur = int64(1 + r.Intn(100000))
+		n++
+		sum += cur
+		mn, mx = min(mn, cur), max(mx, cur)
+		if err := cum.Collect(ctx, &rm); err != nil {
+			k.Violate("collect-error", "observable", err.Error(), nil)
+			return
+		}
+		var count uint64
+		var gotSum, gotMin, gotMax float64
+		var buckets uint64
+		switch d := findMetric(&rm, "h").(type) {
+		case metricdata.Histogram[int64]:
+			p := d.DataPoints[0]
+			count, gotSum = p.Count, float64(p.Sum)
+			a, _ := p.Min.Value()
+			b, _ := p.Max.Value()
+			gotMin, gotMax = float64(a), float64(b)
+			for _, c := range p.BucketCounts {
+				buckets += c
+			}
+		case metricdata.Histogram[float64]:
+			p := d.DataPoints[0]
+			count, gotSum = p.Count, p.Sum
+			gotMin, _ = p.Min.Value()
+			gotMax, _ = p.Max.Value()
+			for _, c := range p.BucketCounts {
+				buckets += c
+			}
+		case metricdata.ExponentialHistogram[int64]:
+			p := d.DataPoints[0]
+			count, gotSum = p.Count, float64(p.Sum)
+			a, _ := p.Min.Value()
+			b, _ := p.Max.Value()
+			gotMin, gotMax = float64(a), float64(b)
+			buckets = p.ZeroCount
+			for _, c := range p.PositiveBucket.Counts {
+				buckets += c
+			}
+		case metricdata.ExponentialHistogram[float64]:
+			p := d.DataPoints[0]
+			count, gotSum = p.Count, p.Sum
+			gotMin, _ = p.Min.Value()
+			gotMax, _ = p.Max.Value()
+			buckets = p.ZeroCount
+			for _, c := range p.PositiveBucket.Counts {
+				buckets += c
+			}
+		default:
+			k.Violate("no-histogram-point", "observable", fmt.Sprintf("%T", d), nil)
+			return
+		}
+		if count != n || buckets != n {
+			k.Violate("bucket-counts-do-not-sum-to-count", "observable counter", fmt.Sprintf("count %d, buckets add up to %d, %d observations", count, buckets, n), nil)
+			return
+		}
+		if gotSum != float64(sum) {
+			k.Violate("sum-mismatch", "observable counter", fmt.Sprintf("expo=%v int=%v: sum %v after observations adding up to %d", expo, intInst, gotSum, sum), nil)
+			return
+		}
+		if gotMin != float64(mn) || gotMax != float64(mx) {
+			k.Violate("min-max-mismatch", "observable counter", fmt.Sprintf("min %v max %v want %d %d", gotMin, gotMax, mn, mx), nil)
+			return
+		}
+	}
+	k.C.Count("observable_sequences", 1)
+	k.C.Sig(fmt.Sprintf("observable|%v|%v", expo, intInst))
+}
+
+// runConcurrent: writers record while a collector reads the cumulative and the delta reader. Every collected
+// point, whenever it was taken, must be consistent in itself: the buckets add up to the count, min <= max,
+// the sum lies between count*lowest and count*highest recorded value; at the quiescent end nothing is missing.
+func runConcurrent(k *vf.Case) {
+	r := k.R
+	expo := r.Bool()
+	var agg sdkmetric.Aggregation = sdkmetric.AggregationExplicitBucketHistogram{Boundaries: []float64{10, 100, 1000}}
+	if expo {
+		agg = sdkmetric.AggregationBase2ExponentialHistogram{MaxSize: vf.Pick(r, []int32{4, 20, 160}), MaxScale: 20}
+	}
+	sel := func(sdkmetric.InstrumentKind) sdkmetric.Aggregation { return agg }
+	cum := sdkmetric.NewManualReader(sdkmetric.WithAggregationSelector(sel))
+	del := sdkmetric.NewManualReader(sdkmetric.WithAggregationSelector(sel),
+		sdkmetric.WithTemporalitySelector(func(sdkmetric.InstrumentKind) metricdata.Temporality { return metricdata.DeltaTemporality }))
+	mp := sdkmetric.NewMeterProvider(sdkmetric.WithReader(cum), sdkmetric.WithReader(del))
+	h, _ := mp.Meter("c07c").Float64Histogram("h")
+	ctx := context.Background()
+	G := vf.Pick(r, []int{2, 4, 8})
+	per := 500 + r.Intn(3000)
+	const lo, hi = 1.0, 5000.0
+	var wg sync.WaitGroup
+	release := make(chan struct{})
+	for g := 0; g < G; g++ {
+		seed := r.U64()
+		wg.Add(1)
+		go func() {
+			defer wg.Done()
+			gr := vf.NewRNG(seed)
+			<-release
+			for i := 0; i < per; i++ {
+				h.Record(ctx, float64(1+gr.Intn(5000)))
+			}
+		}()
+	}
+	var deltaTotal, lastCum uint64
+	bad := false
+	look := func(rd *sdkmetric.ManualReader, what string) {
+		var rm metricdata.ResourceMetrics
+		if err := rd.Collect(ctx, &rm); err != nil {
+			k.Violate("collect-error", "concurrent", err.Error(), nil)
+			bad = true
+			return
+		}
+		var count, buckets uint64
+		var sum, mn, mx float64
+		var has bool
+		switch d := findMetric(&rm, "h").(type) {
+		case metricdata.Histogram[float64]:
+			if len(d.DataPoints) == 0 {
+				return
+			}
+			p := d.DataPoints[0]
+			count, sum = p.Count, p.Sum
+			mn, has = p.Min.Value()
+			mx, _ = p.Max.Value()
+			for _, c := range p.BucketCounts {
+				buckets += c
+			}
+		case metricdata.ExponentialHistogram[float64]:
+			if len(d.DataPoints) == 0 {
+				return
+			}
+			p := d.DataPoints[0]
+			count, sum = p.Count, p.Sum
+			mn, has = p.Min.Value()
+			mx, _ = p.Max.Value()
+			buckets = p.ZeroCount
+			for _, c := range p.PositiveBucket.Counts {
+				buckets += c
+			}
+			for _, c := range p.NegativeBucket.Counts {
+				buckets += c
+			}
+		default:
+			return
+		}
+		if buckets != count {
+			k.Violate("bucket-counts-do-not-sum-to-count", "concurrent "+what, fmt.Sprintf("expo=%v: count %d, buckets add up to %d (collected while %d goroutines record)", expo, count, buckets, G), nil)
+			bad = true
+		}
+		if count > 0 && (!has || mn > mx || mn < lo || mx > hi || sum < float64(count)*mn-1e-6 || sum > float64(count)*mx+1e-6) {
+			k.Violate("torn-point", "concurrent "+what, fmt.Sprintf("expo=%v: count %d sum %v min %v max %v", expo, count, sum, mn, mx), nil)
+			bad = true
+		}
+		if what == "delta" {
+			deltaTotal += count
+		} else {
+			if count < lastCum {
+				k.Violate("cumulative-count-decreased", "concurrent", fmt.Sprintf("%d after %d", count, lastCum), nil)
+				bad = true
+			}
+			lastCum = count
+		}
+		k.C.Count("concurrent_points_checked", 1)
+	}
+	close(release)
+	for i := 0; i < 60 && !bad; i++ {
+		look(cum, "cumulative")
+		look(del, "delta")
+	}
+	wg.Wait()
+	if bad {
+		return
+	}
+	look(cum, "cumulative")
+	look(del, "delta")
+	if lastCum != uint64(G*per) || deltaTotal != uint64(G*per) {
+		k.Violate("measurements-lost", "concurrent", fmt.Sprintf("expo=%v: cumulative count %d, delta counts add up to %d, %d records", expo, lastCum, deltaTotal, G*per), nil)
+	}
+	k.C.Count("concurrent_histories", 1)
+	k.C.Sig(fmt.Sprintf("concurrent|%v|%d", expo, G))
+	mp.Shutdown(ctx)
+}
+
 func main() {
 	vf.Main("C07", "exploration", func(c *vf.Ctx) {
 		c.Rule = "measurement sequences through the public API (view-less aggregation selector, int64 and float64 histograms, cumulative reader collected after EVERY record, delta reader every 1-8 records): random magnitudes over the whole float64 exponent range, subnormals, signs, zeros, exact powers of two, +-1/+-2 ulp neighbours of 2^(k/2^s) boundaries, designed grow-below/grow-above/long-downscale-chain sequences; (MaxSize,MaxScale) in {1,2,3,4,20,160}x{-10,-3,0,1,5,10,20}; explicit boundary lists (empty, one, default, 100 random, adjacent floats, huge/tiny/negative fractional) with values on boundaries. distinct = distinct (kind, MaxSize, MaxScale, final scale, number type, design, downscale count class) signatures"
@@ -832,6 +1043,10 @@ func main() {
 		otel.SetErrorHandler(&errSink{})
 		c.Cases("expo", c.N(6000, 80_000), 0, runExpo)
 		c.Cases("explicit", c.N(6000, 80_000), 0, runExplicit)
+		c.Cases("observable", c.N(1500, 20_000), 0, runObservable)
+		c.Cases("concurrent", c.N(240, 3000), 4, runConcurrent)
+		c.Floor("observable_sequences", 500)
+		c.Floor("concurrent_histories", 100)
 		c.Floor("values_bucket_checked", 50_000)
 		c.Floor("values_power_of_two", 1000)
 		c.Floor("values_boundary_neighbour_correct", 1000)
